@@ -123,10 +123,10 @@ func init() {
 	core.Register(&core.Check{
 		ID:    "C05",
 		Level: "exploration",
-		Rule: "ext4.Create over a grid of parameter sets (block size 1/2/4 KiB or default, blocks per group 256..8192, inode ratio/count, reserved %, log flex groups, features journal/64bit/flex_bg/metadata_csum/gdt_csum/sparse_super2/resize_inode/dir_index/huge_file on or off, sizes 6 MiB..1 GiB sparse, start 0/512/4096/1 MiB), each image handed to the reference checker e2fsck -f -n (independent implementation); then C04 histories with e2fsck after EVERY call, accepted or refused (fill workload: every 25th call and every refused call; directory-growth workload - two directories of 150..240-character names growing block by block between file allocations until they span far more than four extents, then thinned and regrown - every 5th call; append workload - a file grown by 64-block appends, one grown by 4 MiB appends to 100 MiB (contiguous runs longer than the 32768 blocks one initialised extent can describe), and one grown by 9000 two-block appends that fill group tails exactly, across several 4096-block groups, so that extents span group boundaries, then removed, twice - every 60th call and explicitly after growing and after releasing; fragmented-directory workload - a directory built in 2-4 extents of chosen lengths with a data file right behind each, shrunk about half a block at a time with an allocation after every step - every 1st/2nd/4th call; inode-boundary workload - the inode table used up twice, the objects whose number lies within 4 of a multiple of inodes-per-group (read from the superblock on the image) being directories in the first round, symlinks and files in the second, e2fsck after every call there, after the no-inode refusal and after every removal of such an object), and debugfs extraction of every file compared byte-for-byte with what was written; a refusal by Create is an observation; non-trivial = image accepted by Create and checked; distinct = distinct (parameter set, executed history)",
+		Rule: "ext4.Create over a grid of parameter sets (block size 1/2/4 KiB or default, blocks per group 256..8192, inode ratio/count, reserved %, log flex groups, features journal/64bit/flex_bg/metadata_csum/gdt_csum/sparse_super2/resize_inode/dir_index/huge_file on or off, sizes 6 MiB..1 GiB sparse, start 0/512/4096/1 MiB), each image handed to the reference checker e2fsck -f -n (independent implementation); then C04 histories with e2fsck after EVERY call, accepted or refused (fill workload: every 25th call and every refused call; directory-growth workload - two directories of 150..240-character names growing block by block between file allocations until they span far more than four extents, then thinned and regrown - every 5th call; append workload - a file grown by 64-block appends, one grown by 4 MiB appends to 100 MiB (contiguous runs longer than the 32768 blocks one initialised extent can describe), and one grown by 9000 two-block appends that fill group tails exactly, across several 4096-block groups, so that extents span group boundaries, then removed, twice - every 60th call and explicitly after growing and after releasing; fragmented-directory workload - a directory built in 2-4 extents of chosen lengths with a data file right behind each, shrunk about half a block at a time with an allocation after every step - every 1st/2nd/4th call; inode-boundary workload - the inode table used up twice, the objects whose number lies within 4 of a multiple of inodes-per-group (read from the superblock on the image) being directories in the first round, symlinks and files in the second, e2fsck after every call there, after the no-inode refusal and after every removal of such an object), and debugfs extraction of every file compared byte-for-byte with what was written; a refusal by Create is an observation; the stalegap workload (writes behind the end of a file on free space that holds old non-zero data; debugfs must extract zeros for the gap) and the bigwrite workload (single writes larger than a block group, e2fsck after every call); non-trivial = image accepted by Create and checked; distinct = distinct (parameter set, executed history)",
 		Assumptions: []string{"e2fsck/debugfs 1.47.0 from e2fsprogs are the reference implementation", "images are real sparse files under /dev/shm; e2fsck is given file?offset=N for volumes at a non-zero start"},
 		MinSigs:   map[string]int{"quick": 20, "thorough": 300},
-		NeedMarks: []string{"ENOSPC reached", "directories grown block by block between other allocations", "file grown by appends across block groups and released", "fragmented directory shrunk block by block with allocations in between", "objects created and removed at the last and first inode numbers of block groups", "inode table used up"},
+		NeedMarks: []string{"single writes larger than a block group", "writes behind the end of a file on free space holding old data", "ENOSPC reached", "directories grown block by block between other allocations", "file grown by appends across block groups and released", "fragmented directory shrunk block by block with allocations in between", "objects created and removed at the last and first inode numbers of block groups", "inode table used up"},
 		CPUSec:    900,
 		Cases:     c05Cases,
 		Run:       func(c core.Case, env *core.Env) core.Result { return runExt4Case("C05", c, env) },
